@@ -176,7 +176,10 @@ def check(case):
                 if len(gw) == 0 or not np.array_equal(W.wn[idx], gw):
                     out.fail('window-sequence@grid', 'window %s returned wavenumbers not on the native grid' % name)
                     break
-                if not close(sw, spec[idx], rtol=1e-8 + slack, atol=tiny):
+                # the cut-off decision (min over the computed wavenumbers) may differ between window and full grid:
+                # a skipped layer term is at most e^-10 x B(T_layer), i.e. e^-10 of the hottest-layer blackbody
+                # ratio in absolute terms (NOT relative to a spectrum that cold upper layers may make much smaller)
+                if not np.all(np.abs(sw - spec[idx]) <= tiny + 1e-8 * np.abs(spec[idx]) + slack * hi[idx]):
                     out.fail('window-sequence@%s' % kind, 'window %s differs from the full-grid values (max rel %.2e)'
                              % (name, maxrel(sw, spec[idx])))
                     break
